@@ -14,7 +14,7 @@ from .. import nets
 PID = "C17"
 RULE = (
     "case = (seeded public function found by introspection of the package namespace - 'seed' in its signature -, "
-    "argument tuple from a bounded grid, seed, schedule of 0-8 perturbations executed between the two calls: draws from "
+    "argument tuple from a bounded grid that draws every documented parameter incl. the boundary values 0 / 1 / None / default, seed, schedule of 0-8 perturbations executed between the two calls: draws from "
     "random / numpy.random, re-seeding either global generator, calling the same function with another seed, calling "
     "another seeded function). Oracle: both calls return identical observable output - full ordered network snapshot "
     "incl. IDs for generators, exact position arrays for layouts, identical cluster dict for spectral_clustering. "
